@@ -15,6 +15,9 @@ preserved by every event.  The single hypothesis is `FreshRun`: an ID handed out
 request that is at that moment still waiting in the driver's queue — which can only fail after a
 full wrap of the 2^31-1 ID space while that request waits (finding F13, see DESIGN.md).
 `C13_quiescent_nowrap` discharges it for every history with fewer allocations than there are IDs.
+Streams: `C13_abandon_releases_stream` — abandoning a SEARCH also drops the last sender of its item channel,
+so the stream ends (`EndOfStream` after the queued items); `C13_dropped_stream_is_collected` — a search whose
+stream was dropped is removed, and its ID released, at the next frame routed to it.
 -/
 import Ldap3V.Lemmas.ConnNoWrap
 import Ldap3V.Lemmas.ConnGaps
